@@ -340,7 +340,7 @@ static void da_finish(void) {
 static const struct { int c; const char *n; } DA_NAMES[] = {
     { C_NEW, "new" }, { C_CAP0, "newcap0" }, { C_CAP1, "newcap1" }, { C_CAP3, "newcap3" }, { C_CAP9, "newcap9" }, { C_PROMOTE, "new_int_promoted" },
     { O_PUSH0, "push0" }, { O_PUSH1, "push1" }, { O_PUSHC0, "pushcopy0" }, { O_PUSHC1, "pushcopy1" }, { O_POP, "pop" }, { O_CLEAR, "clear" },
-    { O_CLONE, "clone" }, { O_CLONEKEEP, "clonekeep" }, { O_RES0, "reserve0" }, { O_RESLEN, "reservelen" }, { O_RESLEN5, "reservelen5" },
+    { O_CLONE, "clone0" }, { O_CLONEKEEP, "clone1" }, { O_RES0, "reserve0" }, { O_RESLEN, "reservelen" }, { O_RESLEN5, "reservelen5" },
     { O_RESCAP1, "reservecap1" }, { O_FILL, "fill" }, { O_COLLECT, "collect" }, { 0, NULL } };
 static const struct { int c; const char *n; } IDX_NAMES[] = { { O_SET, "set" }, { O_RM, "rm" }, { O_INS, "ins" }, { O_SETALIAS, "setalias" }, { 0, NULL } };
 
@@ -627,8 +627,8 @@ static const Family FAM_GC = { "gc", g_reset, g_enabled, g_apply, g_check, g_fin
 /* =========================================================================================== nl_string */
 typedef struct { nl_string_t *s; bool used; size_t len; unsigned char b[64]; } NS;
 static NS S[3];
-/* op encoding: 0x100|k new from constant k ; 0x200|i<<4|j concat ; 0x300|i<<8|sc<<4|lc substring ; 0x400|i clone ; 0x500|i to_cstr ;
-   0x600|i ensure_nt ; 0x700|i reserve ; 0x800|i shrink ; 0x900|i validate+utf8 queries ; 0xa00|i free ; 0xb00|i<<8|sc<<4|lc utf8_substring */
+/* op encoding (type in bits 12..15): 0x1000|k new from constant k ; 0x2000|i<<4|j concat ; 0x3000|i<<8|sc<<4|lc substring ; 0x4000|i clone ;
+   0x5000|i to_cstr ; 0x6000|i ensure_nt ; 0x7000|i reserve ; 0x8000|i shrink ; 0x9000|i validate+utf8 queries ; 0xa000|i free ; 0xb000|i<<8|sc<<4|lc utf8_substring */
 static const struct { const char *p; size_t n; int how; } NSC[] = {
     { "", 0, 0 }, { "a", 1, 0 }, { "h\xc3\xa9llo", 6, 0 }, { "ab\xff", 3, 0 }, { "", 0, 1 }, { "a\0b", 3, 1 }, { "", 0, 2 }, { "", 4, 2 }, { "\xe2\x82\xac", 3, 3 }, { "\xe2\x82", 2, 3 } };
 #define NNSC 10
@@ -637,16 +637,16 @@ static void ns_reset(void) { memset(S, 0, sizeof S); }
 static size_t ns_pos(size_t len, int cls) { return cls == 0 ? 0 : cls == 1 ? 1 : cls == 2 ? len : len + 1; }
 static int ns_enabled(int *ops) {
     int n = 0, fs = ns_free_slot();
-    if (fs >= 0) for (int k = 0; k < NNSC; k++) ops[n++] = 0x100 | k;
+    if (fs >= 0) for (int k = 0; k < NNSC; k++) ops[n++] = 0x1000 | k;
     for (int i = 0; i < 3; i++) {
         if (!S[i].used) continue;
         if (fs >= 0) {
-            for (int j = 0; j < 3; j++) if (S[j].used) ops[n++] = 0x200 | i << 4 | j;
-            for (int sc = 0; sc < 3; sc++) for (int lc = 0; lc < 4; lc++) { ops[n++] = 0x300 | i << 8 | sc << 4 | lc; }
-            for (int sc = 0; sc < 3; sc++) for (int lc = 0; lc < 3; lc++) { ops[n++] = 0xb00 | i << 8 | sc << 4 | lc; }
-            ops[n++] = 0x400 | i;
+            for (int j = 0; j < 3; j++) if (S[j].used) ops[n++] = 0x2000 | i << 4 | j;
+            for (int sc = 0; sc < 3; sc++) for (int lc = 0; lc < 4; lc++) { ops[n++] = 0x3000 | i << 8 | sc << 4 | lc; }
+            for (int sc = 0; sc < 3; sc++) for (int lc = 0; lc < 3; lc++) { ops[n++] = 0xb000 | i << 8 | sc << 4 | lc; }
+            ops[n++] = 0x4000 | i;
         }
-        ops[n++] = 0x500 | i; ops[n++] = 0x600 | i; ops[n++] = 0x700 | i; ops[n++] = 0x800 | i; ops[n++] = 0x900 | i; ops[n++] = 0xa00 | i;
+        ops[n++] = 0x5000 | i; ops[n++] = 0x6000 | i; ops[n++] = 0x7000 | i; ops[n++] = 0x8000 | i; ops[n++] = 0x9000 | i; ops[n++] = 0xa000 | i;
     }
     return n;
 }
@@ -667,8 +667,8 @@ static void ns_put(int slot, nl_string_t *s, const unsigned char *b, size_t n) {
     if (n) memcpy(S[slot].b, b, n);
 }
 static void ns_apply(int op) {
-    int t = op & 0xf00, fs = ns_free_slot();
-    if (t == 0x100) {
+    int t = op & 0xf000, fs = ns_free_slot();
+    if (t == 0x1000) {
         int k = op & 0xff;
         nl_string_t *s = NULL;
         switch (NSC[k].how) {
@@ -682,7 +682,7 @@ static void ns_apply(int op) {
         ns_put(fs, s, (const unsigned char *)NSC[k].p, NSC[k].n);
         return;
     }
-    if (t == 0x200) {
+    if (t == 0x2000) {
         int i = (op >> 4) & 3, j = op & 3;
         unsigned char b[64];
         if (S[i].len + S[j].len > 60) return;
@@ -690,14 +690,14 @@ static void ns_apply(int op) {
         ns_put(fs, nl_string_concat(S[i].s, S[j].s), b, S[i].len + S[j].len);
         return;
     }
-    if (t == 0x300) {
+    if (t == 0x3000) {
         int i = (op >> 8) & 3, sc = (op >> 4) & 3, lc = op & 3;
         size_t st = ns_pos(S[i].len, sc), ln = ns_pos(S[i].len, lc);
         size_t ml = st >= S[i].len ? 0 : (st + ln > S[i].len ? S[i].len - st : ln);
         ns_put(fs, nl_string_substring(S[i].s, st, ln), S[i].b + (st >= S[i].len ? 0 : st), ml);
         return;
     }
-    if (t == 0xb00) {
+    if (t == 0xb000) {
         int i = (op >> 8) & 3, sc = (op >> 4) & 3, lc = op & 3;
         int64_t chars = 0;
         bool ok = utf8_ok(S[i].b, S[i].len, &chars);
@@ -713,12 +713,12 @@ static void ns_apply(int op) {
     }
     int i = op & 3;
     switch (t) {
-        case 0x400: ns_put(fs, nl_string_clone(S[i].s), S[i].b, S[i].len); break;
-        case 0x500: { const char *c = nl_string_to_cstr(S[i].s); if (!c || strlen(c) > S[i].len || memcmp(c, S[i].b, strlen(c))) fail("to_cstr does not show the string's bytes"); break; }
-        case 0x600: nl_string_ensure_null_terminated(S[i].s); if (!S[i].s->null_terminated) fail("ensure_null_terminated left the flag clear"); break;
-        case 0x700: nl_string_reserve(S[i].s, S[i].len + 3); if (S[i].s->capacity < S[i].len + 3) fail("reserve did not grow the capacity"); break;
-        case 0x800: nl_string_shrink_to_fit(S[i].s); break;
-        case 0x900: {
+        case 0x4000: ns_put(fs, nl_string_clone(S[i].s), S[i].b, S[i].len); break;
+        case 0x5000: { const char *c = nl_string_to_cstr(S[i].s); if (!c || strlen(c) > S[i].len || memcmp(c, S[i].b, strlen(c))) fail("to_cstr does not show the string's bytes"); break; }
+        case 0x6000: nl_string_ensure_null_terminated(S[i].s); if (!S[i].s->null_terminated) fail("ensure_null_terminated left the flag clear"); break;
+        case 0x7000: nl_string_reserve(S[i].s, S[i].len + 3); if (S[i].s->capacity < S[i].len + 3) fail("reserve did not grow the capacity"); break;
+        case 0x8000: nl_string_shrink_to_fit(S[i].s); break;
+        case 0x9000: {
             int64_t chars = 0;
             bool ok = utf8_ok(S[i].b, S[i].len, &chars);
             if (nl_string_validate_utf8(S[i].s) != ok) { fail("validate_utf8 disagrees with the model"); break; }
@@ -729,7 +729,7 @@ static void ns_apply(int op) {
             if (nl_string_byte_at_safe(S[i].s, S[i].len, &out)) fail("byte_at_safe accepts index == length");
             break;
         }
-        case 0xa00: nl_string_free(S[i].s); S[i].used = false; S[i].s = NULL; break;
+        case 0xa000: nl_string_free(S[i].s); S[i].used = false; S[i].s = NULL; break;
         default: fail("harness: bad op %x", op);
     }
 }
@@ -752,25 +752,25 @@ static void ns_check(void) {
 }
 static void ns_finish(void) { for (int i = 0; i < 3; i++) if (S[i].used) { nl_string_free(S[i].s); S[i].used = false; } }
 static void ns_opname(int op, char *buf) {
-    int t = op & 0xf00;
+    int t = op & 0xf000;
     static const char *PC[] = { "0", "1", "len", "len+1" };
-    if (t == 0x100) sprintf(buf, "new%d", op & 0xff);
-    else if (t == 0x200) sprintf(buf, "concat%d+%d", (op >> 4) & 3, op & 3);
-    else if (t == 0x300) sprintf(buf, "substr%d:%s:%s", (op >> 8) & 3, PC[(op >> 4) & 3], PC[op & 3]);
-    else if (t == 0xb00) sprintf(buf, "usubstr%d:%s:%s", (op >> 8) & 3, PC[(op >> 4) & 3], PC[op & 3]);
-    else { static const char *N[] = { "", "", "", "", "clone", "cstr", "ensure_nt", "reserve", "shrink", "utf8", "free" }; sprintf(buf, "%s%d", N[t >> 8], op & 3); }
+    if (t == 0x1000) sprintf(buf, "new%d", op & 0xff);
+    else if (t == 0x2000) sprintf(buf, "concat%d+%d", (op >> 4) & 3, op & 3);
+    else if (t == 0x3000) sprintf(buf, "substr%d:%s:%s", (op >> 8) & 3, PC[(op >> 4) & 3], PC[op & 3]);
+    else if (t == 0xb000) sprintf(buf, "usubstr%d:%s:%s", (op >> 8) & 3, PC[(op >> 4) & 3], PC[op & 3]);
+    else { static const char *N[] = { "", "", "", "", "clone", "cstr", "ensure_nt", "reserve", "shrink", "utf8", "free" }; sprintf(buf, "%s%d", N[t >> 12], op & 3); }
 }
 static int ns_parse(const char *tk) {
     int a, b;
     char p[16], q[16];
-    if (sscanf(tk, "new%d", &a) == 1) return 0x100 | a;
-    if (sscanf(tk, "concat%d+%d", &a, &b) == 2) return 0x200 | a << 4 | b;
+    if (sscanf(tk, "new%d", &a) == 1) return 0x1000 | a;
+    if (sscanf(tk, "concat%d+%d", &a, &b) == 2) return 0x2000 | a << 4 | b;
     for (int u = 0; u < 2; u++) if (sscanf(tk, u ? "usubstr%d:%15[^:]:%15s" : "substr%d:%15[^:]:%15s", &a, p, q) == 3) {
         int pc = !strcmp(p, "0") ? 0 : !strcmp(p, "1") ? 1 : !strcmp(p, "len") ? 2 : 3, qc = !strcmp(q, "0") ? 0 : !strcmp(q, "1") ? 1 : !strcmp(q, "len") ? 2 : 3;
-        return (u ? 0xb00 : 0x300) | a << 8 | pc << 4 | qc;
+        return (u ? 0xb000 : 0x3000) | a << 8 | pc << 4 | qc;
     }
     static const char *N[] = { "clone", "cstr", "ensure_nt", "reserve", "shrink", "utf8", "free" };
-    for (int k = 0; k < 7; k++) { size_t l = strlen(N[k]); if (!strncmp(tk, N[k], l) && tk[l] >= '0' && tk[l] <= '2' && !tk[l + 1]) return (0x400 + k * 0x100) | (tk[l] - '0'); }
+    for (int k = 0; k < 7; k++) { size_t l = strlen(N[k]); if (!strncmp(tk, N[k], l) && tk[l] >= '0' && tk[l] <= '2' && !tk[l + 1]) return (0x4000 + k * 0x1000) | (tk[l] - '0'); }
     return -1;
 }
 static const Family FAM_NS = { "ns", ns_reset, ns_enabled, ns_apply, ns_check, ns_finish, ns_opname, ns_parse };
